@@ -113,11 +113,13 @@ def eval_physics(ctx, cfg, N):
     return first
 
 
-def eval_resume(ctx, N):
-    """fixed dt, time-independent drive: split at every N1"""
-    dev = zoo.make_device("bar", ctx.rng, max_edge_length=1.0)
+def eval_resume(ctx, N, screening=False):
+    """fixed dt, time-independent drive: split at every N1 (with screening the induced potential must be restored too)"""
+    dev = zoo.make_device("bar", ctx.rng, max_edge_length=1.0, lam=(0.5 if screening else 2.0))
     kw = dict(applied_vector_potential=0.4, terminal_currents={"source": 3.0, "drain": -3.0})
     o = dict(dt_init=1e-2, adaptive=False)
+    if screening:
+        o.update(include_screening=True, screening_tolerance=1e-3)
     dt = o["dt_init"]
     first = None
     _, full = run_once(ctx, dev, kw, "full", save_every=1, solve_time=dt * (N - 0.5), **o)
@@ -130,8 +132,8 @@ def eval_resume(ctx, N):
         sol2 = tdgl.solve(dev, opts2, seed_solution=sol1, **kw)
         f2 = {fr["step"]: fr for fr in runs.parse_h5(sol2.path)[0]}
         shared, bad = cmp_frames(ctx, "resume", full, f2, shift=N1)
-        ctx.case(("resume", N1, N2), nontrivial=shared >= 2)
-        ctx.count("resume_splits")
+        ctx.case(("resume", screening, N1, N2), nontrivial=shared >= 2)
+        ctx.count("resume_splits" + ("_screened" if screening else ""))
         if bad:
             rp = dict(N1=N1, N2=N2, where=[list(b) for b in bad[:6]])
             ctx.fail("resume-differs", f"resumed run (split {N1}+{N2}) differs from the uninterrupted run at {bad[:4]}", rp)
@@ -144,6 +146,7 @@ def run(ctx):
     for cfg in physics(ctx.quick):
         eval_physics(ctx, cfg, N)
     eval_resume(ctx, 6 if ctx.quick else 10)
+    eval_resume(ctx, 4 if ctx.quick else 7, screening=True)
     # tie to the Lean loop model (same correspondence as C05, one configuration)
     cfg = c05.configs(True)[0]
     dev, kw = c05.build(cfg, ctx.rng)
@@ -157,7 +160,7 @@ def search(ctx):
         f = eval_physics(ctx, cfg, 4)
         if f:
             return f
-    return eval_resume(ctx, 5)
+    return eval_resume(ctx, 5) or eval_resume(ctx, 4, screening=True)
 
 
 def replay(payload):
